@@ -223,6 +223,13 @@ def t_to_async_iter(E):
                         st['puts'] = st.get('puts', 0) + 1
                         return NONE
                     return VStub('loop.call_soon_threadsafe', cst)
+                if name == 'call_soon':
+                    def cs(E_, a, k):
+                        E.oblige(Qn + '/handover.from_the_helper_thread_is_thread_safe', z3.BoolVal(False), props={'C16', 'C03'},
+                                 detail='loop.call_soon() from another thread neither wakes the loop nor is it safe '
+                                        '(in debug mode it raises): elements and the end marker may never arrive')
+                        raise PathEnd()
+                    return VStub('loop.call_soon', cs)
                 if name == 'run_in_executor':
                     def rie(E_, a, k):
                         """run_in_executor(pool, fn): fn runs in a worker thread of the pool; the returned future
@@ -442,6 +449,11 @@ def t_to_sync_iter(E):
                         raise PyExc(exc)
                     return NONE
                 return VStub('Future.result', result)
+            if isinstance(o, VVal) and o.t.sort() == LoopS and name == 'close':
+                def close(E_, a, k):
+                    st.setdefault('closed_loops', []).append(o)
+                    return NONE
+                return VStub('loop.close', close)
             if isinstance(o, VVal) and o.t.sort() == LoopS and name == 'run_until_complete':
                 def ruc(E_, a, k):
                     st['ran_on'] = o
@@ -473,6 +485,9 @@ def t_to_sync_iter(E):
         E.oblige(Qn + '/resource.no_helper_thread_left', z3.BoolVal(not st.get('pool_open')), props={'C16'})
         E.oblige(Qn + '/resource.worker_future_result_is_taken_so_errors_surface',
                  z3.BoolVal(bool(st.get('future_result_taken'))), props={'C16'})
+        E.oblige(Qn + '/resource.a_loop_supplied_by_the_caller_is_left_open',
+                 z3.BoolVal(not any(c is loop_arg for c in st.get('closed_loops', []))), props={'C16'},
+                 detail='the caller goes on using its loop: a second bridge over it would hang')
         ran = st.get('ran_on')
         E.oblige(Qn + '/ensures.iterates_on_the_given_loop_or_a_new_one',
                  z3.BoolVal(ran is not None and (ran is loop_arg if isinstance(loop_arg, VVal) else ran is newloop)),
